@@ -1,5 +1,5 @@
 SPECIFICATION MCSpec
-CONSTANTS Depth = 0
+CONSTANTS Depth = 20
           MaxBlk = 2
           RestartLen = 2
           MaxSize = 11
@@ -11,5 +11,6 @@ CONSTANTS Depth = 0
           Tails = {3, 5, 201}
 INVARIANTS DbWellFormed SetSemantics WriterConsistent SessionSemantics RoundTrip ReadCorrect IterCorrect FilterSound PruneSafeAll
 CONSTRAINT Bounded
-VIEW View
+CONSTRAINT Emit
+ACTION_CONSTRAINT SimBias
 CHECK_DEADLOCK FALSE
